@@ -2,15 +2,19 @@
 C17 (random mobility plugin: box, redraw on arrival, totality, quiet after finish).
 
 Both drive the REAL classes (`create_dispatcher` / `ProtocolWrapper`, `RandomMobilityPlugin`) on real
-`IProtocol` subclasses with a recording `IProvider`, in-process, through public API only, and compare
-the property-scoped observation with the Lean model (`Driver/DispatcherDriver.lean`,
-`Driver/RandomTripDriver.lean`).  The `oracle_*` functions read the property directly off the
+`IProtocol` subclasses with a recording `IProvider` (C15 also: on the nodes of a real simulation that
+delivers the callbacks through its encapsulator), in-process, through public API only, and compare
+the property-scoped observation with the Lean model (`Driver/DispatcherDriver.lean` — `run` for
+callees that only (un)register, `runNested` for callees that also call the protocol's methods
+themselves or ask for the dispatcher from inside a callback —, `Driver/RandomTripDriver.lean`).  The `oracle_*` functions read the property directly off the
 implementation's log, independently of the model."""
 import copy
 import itertools
 import json
+import logging
 import math
 import random
+import sys
 
 from common import bitsf, bitsv3, fbits, stable_hash, v3bits
 from framework import Check
@@ -76,9 +80,76 @@ class RecProvider(IProvider):
 # ================================================================================================
 # C15 — dispatcher
 # ================================================================================================
+SIM_KINDS = ["timer", "telemetry", "packet"]     # callbacks a running simulation can be made to deliver at will
+MAX_NESTING = 40
+FLAVOURS = ["classic"] * 10 + ["nested"] * 7 + ["sim"] * 3
+NESTED_MODEL = True
+
+
+class _Courier(IProtocol):
+    """sim mode: a further node without a dispatcher; the controller has it send the packets of the history"""
+
+    def initialize(self):
+        pass
+
+    def handle_timer(self, timer):
+        pass
+
+    def handle_packet(self, message):
+        pass
+
+    def handle_telemetry(self, telemetry):
+        pass
+
+    def finish(self):
+        pass
+
+
+class _quiet_root:
+    """every Simulator adds a console handler to the root logger and sets its level; keep the harness process
+    as it was (logging is not part of the observation)"""
+
+    def __enter__(self):
+        root = logging.getLogger()
+        self.saved = (list(root.handlers), root.level)
+        root.setLevel(logging.CRITICAL)
+
+    def __exit__(self, *a):
+        root = logging.getLogger()
+        for h in list(root.handlers):
+            if h not in self.saved[0]:
+                root.removeHandler(h)
+        root.setLevel(self.saved[1])
+
+
+def rop_is_request(rop):
+    return rop[0] in ("reg", "unreg", "register", "unregister")
+
+
+def case_is_extended(case):
+    """does the history use what the first model (`Disp.run`) has no notion of: nested dispatches, a dispatcher
+    asked for from inside a callback, callbacks delivered by a running simulation"""
+    if case.get("sim"):
+        return True
+    for row in case.get("beh", []):
+        for sc in row["scripts"]:
+            if any(not rop_is_request(rop) for rop in sc["ops"]):
+                return True
+    return False
+
+
 class _DispRun:
     """one history on real protocol instances; the recording protocol and the handler closures
-    report every invocation here"""
+    report every invocation here.
+
+    `case["sim"]` (optional): the instances are the protocols of the nodes of a REAL simulation (SimulationBuilder,
+    TimerHandler + MobilityHandler + CommunicationHandler, one further courier node) driven step by step by this
+    object as an external controller.  create / register / unregister ops are done between two steps; a
+    `dispatch p kind` op makes the simulator deliver that callback to node p through its encapsulator (a timer
+    set for now, a packet sent by the courier, the next mobility update) and steps until it arrived.  Everything
+    the simulator delivers on the way (initialize of every node at the first step, telemetry of every node at
+    every mobility update, finish of every node at the end) is a dispatch of the history as well: the run
+    reports the EFFECTIVE history (`ops`) next to the results, and the property is judged on that."""
 
     def __init__(self, case):
         self.case = case
@@ -92,7 +163,11 @@ class _DispRun:
         self.drop_at = case.get("drop_at")
         self.asked = set()       # instances a dispatcher was asked for (the harness may not hold it any more)
         self.dropped = False
-        self.current = None      # (pid, kind, payload, calls) of the running dispatch
+        self.stack = []          # frames {pid, kind, payload, calls} of the running (nested) dispatches
+        self.implicit = None     # sim mode, while a step runs: frames of the callbacks the simulator delivered
+        self.serial = 0
+        self.sim = case.get("sim")
+        self.eff_ops, self.eff_results = [], []
         run = self
 
         class RecProto(IProtocol):
@@ -114,20 +189,145 @@ class _DispRun:
                 return run.invoke("own", self, (), "finish")
 
         self.protos = {}
+        pids = []
         for op in case["ops"]:
-            p = op[1]
-            if p not in self.protos:
+            if op[1] not in pids:
+                pids.append(op[1])
+        if self.sim:
+            self.build_sim(RecProto, pids)
+        else:
+            for p in pids:
                 proto = RecProto.instantiate(RecProvider(p))
                 proto.pid = p
                 self.protos[p] = proto
         self.handlers = {}
 
+    # ---------------------------------------------------------------------------------- simulation
+    def build_sim(self, RecProto, pids):
+        from gradysim.simulator.handler.communication import CommunicationHandler
+        from gradysim.simulator.handler.mobility import MobilityConfiguration, MobilityHandler
+        from gradysim.simulator.handler.timer import TimerHandler
+        from gradysim.simulator.simulation import SimulationBuilder, SimulationConfiguration
+        n = (max(pids) + 1) if pids else 1
+        rate = float(self.sim.get("rate", 1.0))
+        ticks = sum(1 for op in self.case["ops"] if op[0] == "dispatch" and op[2] == "telemetry")
+        self.n_nodes = n + 1
+        self.max_steps_left = (ticks + 3) * (self.n_nodes + 1) + 4 * len(self.case["ops"]) + 10
+        with _quiet_root():
+            builder = SimulationBuilder(SimulationConfiguration(duration=rate * (ticks + 1) + rate / 2,
+                                                                execution_logging=False))
+            builder.add_handler(TimerHandler())
+            builder.add_handler(MobilityHandler(MobilityConfiguration(update_rate=rate)))
+            builder.add_handler(CommunicationHandler())
+            ids = [builder.add_node(RecProto, (0.0, 0.0, 0.0)) for _ in range(n)]
+            self.courier_id = builder.add_node(_Courier, (0.0, 0.0, 0.0))
+            self.simulator = builder.build()
+        for p in ids:
+            proto = self.simulator.get_node(p).protocol_encapsulator.protocol
+            proto.pid = p
+            self.protos[p] = proto
+        self.courier = self.simulator.get_node(self.courier_id).protocol_encapsulator.protocol
+        self.sim_over = False
+        self.sim_begun = False
+
+    def sim_step(self):
+        """one step of the simulation; the callbacks it delivered to the recorded nodes become dispatches of the
+        effective history; returns (frames, simulation goes on)"""
+        self.implicit = []
+        crash = None
+        alive = False
+        try:
+            with _quiet_root():
+                alive = self.simulator.step_simulation()
+        except Exception as e:      # nothing in a history makes the real code raise here
+            crash = type(e).__name__
+        frames, self.implicit = self.implicit, None
+        self.sim_begun = True
+        self.max_steps_left -= 1
+        if crash is not None:
+            if not frames:
+                frames.append({"pid": None, "kind": None, "payload": (), "calls": []})
+            frames[-1]["calls"].append(["crash", crash, 0, [], {}])
+            alive = False
+        for fr in frames:
+            if fr["pid"] is not None or crash is not None:
+                self.eff_ops.append(["dispatch", fr["pid"], fr["kind"]])
+                self.eff_results.append(fr["calls"])
+        if not alive or self.max_steps_left <= 0:
+            self.sim_over = True
+        return frames
+
+    def sim_deliver(self, p, kind, tag):
+        """make the running simulation deliver callback `kind` to node p and step until it did"""
+        if self.sim_over:
+            return
+        proto = self.protos[p]
+        if kind == "timer":
+            payload = ("t" + tag,)
+            proto.provider.schedule_timer(payload[0], proto.provider.current_time())
+            want = lambda fr: fr["pid"] == p and fr["kind"] == "timer" and fr["payload"] == payload    # noqa: E731
+        elif kind == "packet":
+            from gradysim.protocol.messages.communication import SendMessageCommand
+            payload = ("m" + tag,)
+            self.courier.provider.send_communication_command(SendMessageCommand(payload[0], p))
+            want = lambda fr: fr["pid"] == p and fr["kind"] == "packet" and fr["payload"] == payload   # noqa: E731
+        else:
+            want = lambda fr: fr["pid"] == p and fr["kind"] == "telemetry"                              # noqa: E731
+        for _ in range(2 * self.n_nodes + 3):
+            frames = self.sim_step()
+            if any(want(fr) for fr in frames):
+                return
+            if self.sim_over:
+                return
+        # the simulator went on and on without the callback reaching anything of the chain of node p
+        self.eff_ops.append(["dispatch", p, kind])
+        self.eff_results.append([])
+
+    def sim_finish(self):
+        while not self.sim_over:
+            self.sim_step()
+
+    def kind_of_args(self, args):
+        """sim mode: which callback the simulator is delivering, from what it delivers (the payloads are ours)"""
+        if not args:
+            return "finish" if self.sim_begun else "initialize"
+        if isinstance(args[0], Telemetry):
+            return "telemetry"
+        if isinstance(args[0], str) and args[0].startswith("t"):
+            return "timer"
+        if isinstance(args[0], str) and args[0].startswith("m"):
+            return "packet"
+        return None
+
+    def implicit_frame(self, instance, args):
+        pid = getattr(instance, "pid", None)
+        kind = self.kind_of_args(args)
+        fr = self.implicit[-1] if self.implicit else None
+        if (fr is not None and fr["pid"] == pid and fr["kind"] == kind and len(fr["payload"]) == len(args)
+                and all(a is b or (isinstance(a, str) and a == b) for a, b in zip(fr["payload"], args))):
+            return fr
+        fr = {"pid": pid, "kind": kind, "payload": tuple(args), "calls": []}
+        self.implicit.append(fr)
+        return fr
+
+    # ---------------------------------------------------------------------------------- requests
     def handler(self, hid):
         if hid not in self.handlers:
             def handler(instance, *args, _hid=hid):
                 return self.invoke(["h", _hid], instance, args, None)
             self.handlers[hid] = handler
         return self.handlers[hid]
+
+    def create(self, pid):
+        """`create_dispatcher` on instance pid (top level or from inside a callback), as a result"""
+        existed = pid in self.asked
+        w = create_dispatcher(self.protos[pid])
+        rewrapped = pid in self.wrappers and w is not self.wrappers[pid]
+        self.asked.add(pid)
+        if not self.dropped:
+            self.wrappers[pid] = w
+        del w
+        return ["rewrapped", True] if rewrapped else ["created", existed]
 
     def request(self, pid, name, kind, hid):
         """a (un)registration on instance pid through its wrapper, as a result string"""
@@ -148,9 +348,32 @@ class _DispRun:
         except ValueError:
             return "absent"
 
+    def payload(self, kind, tag):
+        self.serial += 1
+        return {"initialize": (), "finish": (), "timer": ("t" + tag,), "packet": ("m" + tag,),
+                "telemetry": (Telemetry(current_position=(float(self.serial), 0.0, 0.0)),)}[kind]
+
+    def call(self, proto, pid, kind, tag):
+        """call method `kind` of the protocol (top level: the harness; nested: a callee of a running
+        dispatch); returns the invocations it made"""
+        payload = self.payload(kind, tag)
+        fr = {"pid": pid, "kind": kind, "payload": payload, "calls": []}
+        if len(self.stack) >= MAX_NESTING:
+            return [["crash", "NestingGuard", 0, [], {}]]
+        self.stack.append(fr)
+        try:
+            getattr(proto, METHOD[kind])(*payload)
+        except Exception as e:     # nothing in a history makes the real code raise here
+            fr["calls"].append(["crash", type(e).__name__, 0, [], {}])
+        finally:
+            self.stack.pop()
+        return fr["calls"]
+
     def invoke(self, entry, instance, args, own_kind):
-        cur = self.current
-        kind = own_kind if own_kind is not None else (cur[1] if cur else None)
+        cur = self.stack[-1] if self.stack else None
+        if cur is None and self.implicit is not None:
+            cur = self.implicit_frame(instance, args)
+        kind = own_kind if own_kind is not None else (cur["kind"] if cur else None)
         pid = getattr(instance, "pid", None)
         callee = ["own", pid, kind] if entry == "own" else entry
         key = json.dumps(callee)
@@ -162,10 +385,19 @@ class _DispRun:
             script = row["scripts"][n] if n < len(row["scripts"]) else {"ops": [], "ret": row.get("default", "cont")}
         rops = []
         for rop in script["ops"]:
-            rops.append([rop, self.request(pid, rop[0], rop[1], rop[2])])
-        extra = {"pid": pid, "kind": kind, "args_ok": cur is not None and tuple(args) == tuple(cur[2])}
+            if rop[0] == "dispatch":
+                # the callee calls the protocol's method `rop[1]` itself, on the instance it runs for
+                # (a watchdog raising a synthetic timer, an envelope handler re-delivering the payload)
+                rops.append([rop, self.call(instance, pid, rop[1], f"n{self.serial}")])
+            elif rop[0] == "create":
+                rops.append([rop, self.create(pid) if pid in self.protos else "foreign"])
+            else:
+                rops.append([rop, self.request(pid, rop[0], rop[1], rop[2])])
+        extra = {"pid": pid, "kind": kind,
+                 "args_ok": cur is not None and len(args) == len(cur["payload"]) and
+                 all(a is b or (isinstance(a, str) and a == b) for a, b in zip(args, cur["payload"]))}
         if cur is not None:
-            cur[3].append([entry, script["ret"], n, rops, extra])
+            cur["calls"].append([entry, script["ret"], n, rops, extra])
         return {"cont": DispatchReturn.CONTINUE, "interrupt": DispatchReturn.INTERRUPT, "none": None}[script["ret"]]
 
     def churn(self, n):
@@ -184,7 +416,6 @@ class _DispRun:
             self.others.append(o)
 
     def run(self, ops):
-        results = []
         churn = self.case.get("churn")
         for i, op in enumerate(ops):
             if churn and i == churn["at"]:
@@ -193,53 +424,87 @@ class _DispRun:
                 self.dropped = True
                 self.wrappers.clear()
             name, p = op[0], op[1]
+            if name == "dispatch" and self.sim and op[2] in SIM_KINDS:
+                self.sim_deliver(p, op[2], str(i))      # appends what the simulator delivered
+                continue
             if name == "create":
-                existed = p in self.asked
-                w = create_dispatcher(self.protos[p])
-                if p in self.wrappers and w is not self.wrappers[p]:
-                    results.append(["rewrapped", True])
-                else:
-                    results.append(["created", existed])
-                self.asked.add(p)
-                if not self.dropped:
-                    self.wrappers[p] = w
-                del w
+                res = self.create(p)
             elif name in ("register", "unregister"):
-                results.append(self.request(p, name, op[2], op[3]))
+                res = self.request(p, name, op[2], op[3])
             elif name == "dispatch":
-                kind = op[2]
-                payload = {"initialize": (), "finish": (), "timer": (f"t{i}",), "packet": (f"m{i}",),
-                           "telemetry": (Telemetry(current_position=(float(i), 0.0, 0.0)),)}[kind]
-                calls = []
-                self.current = (p, kind, payload, calls)
-                try:
-                    getattr(self.protos[p], METHOD[kind])(*payload)
-                except Exception as e:     # nothing in a history makes the real code raise here
-                    calls.append(["crash", type(e).__name__, 0, [], {}])
-                finally:
-                    self.current = None
-                results.append(calls)
+                res = self.call(self.protos[p], p, op[2], str(i))
             else:
                 raise ValueError(f"unknown op {op}")
-        return results
+            self.eff_ops.append(op)
+            self.eff_results.append(res)
+        if self.sim:
+            self.sim_finish()
+        return self.eff_results
 
 
 def disp_run_impl(case):
-    return {"results": _DispRun(case).run(case["ops"])}
+    run = _DispRun(case)
+    results = run.run(case["ops"])
+    out = {"results": results}
+    if case.get("sim"):
+        out["ops"] = run.eff_ops       # the history as the simulator made it happen
+    return out
+
+
+def eff_ops(case, impl):
+    return impl["ops"] if "ops" in impl else case["ops"]
+
+
+def strip_call(c):
+    """an invocation without the implementation-only fifth field (also in the nested dispatches)"""
+    return [c[0], c[1], c[2], [[rop, [strip_call(x) for x in r] if rop[0] == "dispatch" else r] for rop, r in c[3]]]
 
 
 def strip_calls(op, res):
-    """a dispatch result without the implementation-only fifth field of each call"""
-    return [c[:4] for c in res] if op[0] == "dispatch" else res
+    return [strip_call(c) for c in res] if op[0] == "dispatch" else res
 
 
-def disp_oracle(case, impl):
-    """C15 read directly off the implementation's invocation log."""
+def flat_events(calls):
+    """a dispatch result as the flat event list the extended model prints"""
+    out = []
+    for c in calls:
+        out.append(["call", c[0], c[2]])
+        for rop, r in c[3]:
+            if rop[0] == "dispatch":
+                out.append(["begin", rop[1]])
+                out.extend(flat_events(r))
+                out.append(["end", rop[1]])
+            elif rop[0] == "create":
+                out.append(["create", r])
+            else:
+                out.append(["req", rop, r])
+        out.append(["ret", c[0], c[1]])
+    return out
+
+
+def disp_oracle(case, impl, notes=None):
+    """C15 read directly off the implementation's invocation log.  Every call of a protocol method — by the
+    harness, by the simulator's encapsulator, or by a callee of a running dispatch (nested) — must invoke the
+    chain as it stood when THAT call began: newest registration first, the protocol's own method last, each
+    once, up to the first INTERRUPT (timer / packet / telemetry); requests made meanwhile count from the
+    next call on."""
     fails = []
     created, chains, registered = set(), {}, set()
+    notes = notes if notes is not None else {}
+
+    def note(k):
+        notes[k] = notes.get(k, 0) + 1
 
     def chain(p, k):
         return chains.setdefault((p, k), ["own"]) if p in created else ["own"]
+
+    def create(p, res, where):
+        if res[0] == "rewrapped":
+            fails.append(("C15:rewrapped", f"{where}: create_dispatcher on an already wrapped instance {p} "
+                          "returned a different wrapper"))
+        elif res[1] != (p in created):
+            fails.append(("C15:create-result", f"{where}: create on instance {p} existed={res[1]}"))
+        created.add(p)
 
     def request(p, name, k, h, res, where):
         entry = ["h", h]
@@ -260,74 +525,101 @@ def disp_oracle(case, impl):
             fails.append((f"C15:{'register' if name in ('reg', 'register') else 'unregister'}-result",
                           f"{where}: {name} {k} handler {h} on instance {p} answered {res}, expected {want}"))
 
-    for i, (op, res) in enumerate(zip(case["ops"], impl["results"])):
+    def dispatch(p, k, res, where, enclosing):
+        """enclosing: the running dispatches this one is nested in, as (p, kind, snapshot, more to come)"""
+        snapshot = list(chain(p, k))
+        intr = k in INTERRUPTIBLE
+        if enclosing:
+            note("nested_dispatches")
+            for (ep, ek, esnap, more) in enclosing:
+                if (ep, ek) == (p, k):
+                    note("nested_same_kind")
+                    if esnap != snapshot and more:
+                        note("nested_same_kind_chain_changed_outer_goes_on")
+                    break
+        stopped = None          # index of the call after which the chain must stop
+        for j, call in enumerate(res):
+            entry, ret, _n, rops, extra = call
+            if entry == "crash":
+                fails.append((f"C15:crash:{ret}", f"{where}: dispatch {k} on instance {p} raised {ret}"))
+                return
+            if stopped is not None:
+                fails.append(("C15:interrupt-ignored", f"{where}: dispatch {k} on {p}: {res[stopped][0]} returned "
+                              f"INTERRUPT but {entry} was still invoked"))
+                return
+            if j >= len(snapshot):
+                what = "C15:repeated" if entry in [c[0] for c in res[:j]] else "C15:foreign"
+                fails.append((what, f"{where}: dispatch {k} on {p} invoked {entry} after the whole chain "
+                              f"{snapshot} (as it stood when the dispatch began) had run"))
+                return
+            if entry != snapshot[j]:
+                if entry in snapshot[j + 1:]:
+                    what, txt = "C15:skipped", f"skipped {snapshot[j]}"
+                elif entry in [c[0] for c in res[:j]]:
+                    what, txt = "C15:repeated", f"invoked {entry} again"
+                else:
+                    what, txt = "C15:foreign", f"invoked {entry}, which was not in the chain when the dispatch began"
+                fails.append((what, f"{where}: dispatch {k} on instance {p} with chain {snapshot}: {txt} "
+                              f"(invocations: {[c[0] for c in res]})"))
+                return
+            if extra.get("pid") != p or extra.get("kind") != k:
+                fails.append(("C15:isolation", f"{where}: dispatch {k} on {p} invoked {entry} for instance "
+                              f"{extra.get('pid')} / kind {extra.get('kind')}"))
+            if not extra.get("args_ok"):
+                fails.append(("C15:payload", f"{where}: {entry} did not receive the dispatched arguments"))
+            if entry != "own" and (p, k, entry[1]) not in registered:
+                fails.append(("C15:isolation", f"{where}: handler {entry[1]} ran for instance {p} kind {k} "
+                              "where it was never registered"))
+            more = j + 1 < len(snapshot) and not (ret == "interrupt" and intr)
+            for rop, r in rops:
+                if rop[0] == "dispatch":
+                    dispatch(p, rop[1], r, f"{where}, {rop[1]} dispatched from inside {entry} ({k})",
+                             [(p, k, snapshot, more)] + enclosing)
+                elif rop[0] == "create":
+                    create(p, r, f"{where}, inside {entry}")
+                else:
+                    request(p, rop[0], rop[1], rop[2], r, f"{where}, inside {entry}")
+            if ret == "interrupt" and intr:
+                stopped = j
+        want = len(snapshot) if stopped is None else stopped + 1
+        if len(res) < want:
+            if not intr and res and res[-1][1] == "interrupt":
+                fails.append(("C15:lifecycle-interrupted", f"{where}: {k} on instance {p}: {res[-1][0]} returned "
+                              f"INTERRUPT and the rest of the chain {snapshot[len(res):]} was not run"))
+            else:
+                fails.append(("C15:skipped", f"{where}: dispatch {k} on {p} ran {[c[0] for c in res]} "
+                              f"of the chain {snapshot} without an INTERRUPT"))
+
+    for i, (op, res) in enumerate(zip(eff_ops(case, impl), impl["results"])):
         name, p = op[0], op[1]
         if name == "create":
-            if res[0] == "rewrapped":
-                fails.append(("C15:rewrapped", f"op {i}: create_dispatcher on an already wrapped instance {p} "
-                              "returned a different wrapper"))
-            elif res[1] != (p in created):
-                fails.append(("C15:create-result", f"op {i}: create on instance {p} existed={res[1]}"))
-            created.add(p)
+            create(p, res, f"op {i}")
         elif name in ("register", "unregister"):
             request(p, name, op[2], op[3], res, f"op {i}")
         elif name == "dispatch":
-            k = op[2]
-            snapshot = list(chain(p, k))
-            intr = k in INTERRUPTIBLE
-            stopped = None          # index of the call after which the chain must stop
-            for j, call in enumerate(res):
-                entry, ret, _n, rops, extra = call
-                if entry == "crash":
-                    fails.append((f"C15:crash:{ret}", f"op {i}: dispatch {k} on instance {p} raised {ret}"))
-                    break
-                if stopped is not None:
-                    fails.append(("C15:interrupt-ignored", f"op {i}: dispatch {k} on {p}: {res[stopped][0]} returned "
-                                  f"INTERRUPT but {entry} was still invoked"))
-                    break
-                if j >= len(snapshot):
-                    what = "C15:repeated" if entry in [c[0] for c in res[:j]] else "C15:foreign"
-                    fails.append((what, f"op {i}: dispatch {k} on {p} invoked {entry} after the whole chain "
-                                  f"{snapshot} (as it stood when the dispatch began) had run"))
-                    break
-                if entry != snapshot[j]:
-                    if entry in snapshot[j + 1:]:
-                        what, txt = "C15:skipped", f"skipped {snapshot[j]}"
-                    elif entry in [c[0] for c in res[:j]]:
-                        what, txt = "C15:repeated", f"invoked {entry} again"
-                    else:
-                        what, txt = "C15:foreign", f"invoked {entry}, which was not in the chain when the dispatch began"
-                    fails.append((what, f"op {i}: dispatch {k} on instance {p} with chain {snapshot}: {txt} "
-                                  f"(invocations: {[c[0] for c in res]})"))
-                    break
-                if extra.get("pid") != p or extra.get("kind") != k:
-                    fails.append(("C15:isolation", f"op {i}: dispatch {k} on {p} invoked {entry} for instance "
-                                  f"{extra.get('pid')} / kind {extra.get('kind')}"))
-                if not extra.get("args_ok"):
-                    fails.append(("C15:payload", f"op {i}: {entry} did not receive the dispatched arguments"))
-                if entry != "own" and (p, k, entry[1]) not in registered:
-                    fails.append(("C15:isolation", f"op {i}: handler {entry[1]} ran for instance {p} kind {k} "
-                                  "where it was never registered"))
-                for rop, r in rops:
-                    request(p, rop[0], rop[1], rop[2], r, f"op {i}, inside {entry}")
-                if ret == "interrupt" and intr:
-                    stopped = j
-            else:
-                want = len(snapshot) if stopped is None else stopped + 1
-                if len(res) < want:
-                    if not intr and res and res[-1][1] == "interrupt":
-                        fails.append(("C15:lifecycle-interrupted", f"op {i}: {k} on instance {p}: {res[-1][0]} returned "
-                                      f"INTERRUPT and the rest of the chain {snapshot[len(res):]} was not run"))
-                    else:
-                        fails.append(("C15:skipped", f"op {i}: dispatch {k} on {p} ran {[c[0] for c in res]} "
-                                      f"of the chain {snapshot} without an INTERRUPT"))
+            if p is None:
+                fails.append((f"C15:crash:{res[-1][1] if res else '?'}", f"op {i}: a step of the simulation raised"))
+                continue
+            if p in created and "ops" in impl:
+                note("sim_dispatch_through_chain")
+                if len(chain(p, op[2])) > 1:
+                    note("sim_dispatch_through_chain_with_handlers")
+            dispatch(p, op[2], res, f"op {i}", [])
     return fails
+
+
+def all_calls(res):
+    for c in res:
+        yield c
+        for rop, r in c[3]:
+            if rop[0] == "dispatch":
+                yield from all_calls(r)
 
 
 def disp_interesting(case, impl):
     """a dispatch over a chain of >= 3 with an INTERRUPT strictly inside and a successful re-entrant
     (un)registration in the same dispatch"""
-    for op, res in zip(case["ops"], impl["results"]):
+    for op, res in zip(eff_ops(case, impl), impl["results"]):
         if op[0] != "dispatch" or len(res) < 2:
             continue
         last = res[-1]
@@ -338,27 +630,65 @@ def disp_interesting(case, impl):
     return False
 
 
-def gen_disp(seed, max_ops=60):
+def gen_disp(seed, max_ops=60, flavour="classic"):
+    """flavour "classic": callees only (un)register; "nested": callees also call the protocol's methods
+    themselves (nested dispatch) and ask for the dispatcher from inside a callback; "sim": like nested, and the
+    instances are the nodes of a real simulation that delivers the callbacks (see _DispRun)"""
     r = random.Random(stable_hash("disp", seed))
+    sim = flavour == "sim"
+    extended = flavour != "classic"
     n_inst = r.choice([1, 1, 2, 2, 3])
     n_h = r.randint(2, 6)
     hot = r.sample(KINDS, r.choice([1, 2, 2, 3]))
-    if r.random() < 0.7 and not (set(hot) & INTERRUPTIBLE):
+    if (sim or r.random() < 0.7) and not (set(hot) & INTERRUPTIBLE):
         hot[0] = r.choice(sorted(INTERRUPTIBLE))
     p_intr = r.choice([0.1, 0.25, 0.4])
     p_reent = r.choice([0.15, 0.35, 0.6])
+    p_nest = r.choice([0.1, 0.25, 0.4]) if extended else 0.0
+    p_pattern = r.choice([0.0, 0.15, 0.3]) if extended else 0.0
+    # instances whose dispatcher is first asked for late: from inside a callback, or by a later top-level op
+    lazy = {p for p in range(n_inst) if extended and r.random() < (0.6 if sim else 0.3)}
+    budget = {"nested": 6}
 
     def kind():
         return r.choice(hot) if r.random() < 0.85 else r.choice(KINDS)
 
-    def script(self_id):
+    def dkind():
+        k = kind()
+        while sim and k not in SIM_KINDS:
+            k = r.choice(hot + SIM_KINDS)
+        return k
+
+    def nested(k):
+        if budget["nested"] <= 0:
+            return []
+        budget["nested"] -= 1
+        return [["dispatch", k]]
+
+    def script(self_id, own_of=None):
         ops = []
+        if self_id is not None and p_pattern > 0 and r.random() < p_pattern:
+            # usage patterns: a one-shot handler that removes itself and raises the callback again; a
+            # handshake handler that installs its successor and re-delivers; a plain re-delivery
+            k = r.choice(hot)
+            x = r.random()
+            first = ([["unreg", k, self_id]] if x < 0.4 else [["reg", k, r.randrange(n_h + 1)]] if x < 0.75 else
+                     [["unreg", k, r.randrange(n_h)]] if x < 0.9 else [])
+            ops = first + nested(k)
+            x = r.random()
+            return {"ops": ops, "ret": "none" if x < 0.15 else "cont"}
+        if own_of is not None and own_of in lazy and r.random() < 0.7:
+            ops.append(["create"])
         while r.random() < p_reent and len(ops) < 3:
             x = r.random()
-            if self_id is not None and x < 0.3:
+            if p_nest > 0 and r.random() < p_nest:
+                ops += nested(kind())
+            elif self_id is not None and x < 0.3:
                 ops.append(["unreg", kind(), self_id])          # self-unregistration
             elif x < 0.55:
                 ops.append(["unreg", kind(), r.randrange(n_h)])
+            elif extended and x < 0.6:
+                ops.append(["create"])
             else:
                 ops.append(["reg", kind(), r.randrange(n_h + 1)])
         x = r.random()
@@ -372,19 +702,19 @@ def gen_disp(seed, max_ops=60):
                         "default": r.choice(RETS + ["cont", "cont"])})
     for p in range(n_inst):
         for k in KINDS:
-            if r.random() < 0.15:
-                beh.append({"callee": ["own", p, k], "scripts": [script(None) for _ in range(r.randint(1, 2))],
+            if r.random() < (0.5 if p in lazy else 0.15):
+                beh.append({"callee": ["own", p, k], "scripts": [script(None, own_of=p) for _ in range(r.randint(1, 2))],
                             "default": r.choice(RETS)})
     ops = []
     live = {}
     for p in range(n_inst):
-        if r.random() < 0.9:
+        if p not in lazy and r.random() < 0.9:
             ops.append(["create", p])
     n = r.randint(5, max_ops)
     while len(ops) < n:
         p = r.randrange(n_inst)
         x = r.random()
-        if x < 0.04:
+        if x < (0.02 if p in lazy else 0.04):
             ops.append(["create", p])
         elif x < 0.42:
             k, h = kind(), r.randrange(n_h + 1)
@@ -398,8 +728,17 @@ def gen_disp(seed, max_ops=60):
             if h in cand:
                 cand.remove(h)
         else:
-            ops.append(["dispatch", p, kind()])
-    return {"kind": "dispatcher", "beh": beh, "ops": ops}
+            ops.append(["dispatch", p, dkind()])
+    if lazy:
+        # the late top-level request of a lazily wrapped instance: after some callbacks were delivered to it
+        for p in sorted(lazy):
+            mine = [i for i, op in enumerate(ops) if op[0] == "dispatch" and op[1] == p]
+            if mine and r.random() < 0.7:
+                ops.insert(mine[r.randrange(min(3, len(mine)))] + 1, ["create", p])
+    case = {"kind": "dispatcher", "beh": beh, "ops": ops}
+    if sim:
+        case["sim"] = {"rate": r.choice([1.0, 0.5, 0.25])}
+    return case
 
 
 def enum_disp(max_len, variant):
@@ -441,21 +780,39 @@ class C15(Check):
                   "protocol's own method last; the prefix ends exactly at the first INTERRUPT for timer/packet/telemetry and "
                   "is the whole chain for initialize/finish; unregister removes exactly one occurrence or raises leaving "
                   "everything unchanged; re-entrant requests take effect from the next dispatch; create is idempotent; "
-                  "instances are isolated. Tied to the code by differential execution on real protocol instances.")
+                  "instances are isolated. Extended model (callees of arbitrary behaviour that also call the protocol's "
+                  "methods themselves, to any nesting depth, and ask for the dispatcher from inside a callback): every call, "
+                  "nested ones included, invokes the chain as it stood when THAT call began (whole for initialize/finish, up "
+                  "to the first INTERRUPT otherwise), worlds stay well-formed, other instances untouched, and the extension "
+                  "is conservative over the first model. Tied to the code by differential execution on real protocol "
+                  "instances, called directly and (15%) delivered to by a real simulation through its encapsulator.")
     rule = ("histories of 5-60 ops (create / register / unregister / dispatch) over 1-3 real protocol instances, the 5 kinds "
             "and 2-7 handler closures whose k-th invocation performs scripted (un)registrations on its instance and returns "
             "CONTINUE / INTERRUPT / None (own methods scripted too); in 35% of the histories nobody keeps the dispatcher "
             "(from the start, or from some op on): every request, also the re-entrant ones, goes through a fresh "
-            "create_dispatcher(protocol) whose result is let go at once; thorough: every history of <= 5 ops over a 10-op "
+            "create_dispatcher(protocol) whose result is let go at once; 35% of the histories: callees also call the "
+            "protocol's own methods (nested dispatch of any kind on the instance they run for, <= 6 per history; patterns "
+            "one-shot handler = unregister itself + raise the callback again, handshake = register a successor + re-deliver) "
+            "and ask for the dispatcher from inside a callback (instances wrapped late); 15%: the same with the instances "
+            "being the protocols of the nodes of a REAL simulation (SimulationBuilder, timer + mobility + communication "
+            "handlers, a courier node) stepped by an external controller: requests between two steps, every dispatch "
+            "delivered by the simulator through the node's encapsulator (timer set for now, packet from the courier, next "
+            "mobility update), the first create_dispatcher of 60% of the nodes coming only after callbacks were delivered; "
+            "initialize / telemetry of every node / finish as the simulator issues them are part of the judged history; "
+            "thorough: every history of <= 5 ops over a 10-op "
             "alphabet x 2 behaviours, <= 4 ops over two instances; non-trivial = a dispatch over a chain of >= 3 stopped by "
             "an INTERRUPT strictly inside, with a successful re-entrant (un)registration in the same dispatch")
-    assumptions = ["handlers do not raise and do not call the protocol's methods recursively (a re-entrant unregister of an "
-                   "absent handler is caught inside the handler)",
+    assumptions = ["handlers do not raise (a re-entrant unregister of an absent handler is caught inside the handler)",
+                   "a callee that calls the protocol's methods itself does so on the instance it runs for; the nesting depth "
+                   "is finite (model: fuel)",
                    "nobody else monkey-patches the protocol's methods (module docstring)"]
     technique = ("Lean 4 theorems about a hand-written executable model (induction over operation histories; every handler "
                  "behaviour as a function of the invocation number, incl. scripted re-entrant requests) + differential "
                  "correspondence of model and real classes + direct predicate on the implementation's log to find failing inputs")
-    level_note = ("Not covered: handlers that raise or that call the protocol's methods recursively (nested dispatch). "
+    level_note = ("Not covered: handlers that raise; nested calls on ANOTHER instance. The histories run on a real "
+                  "simulation are given to the model as the effective history (controller ops + every callback the "
+                  "simulator delivered, in order); that the simulator delivers a requested callback at all is checked only "
+                  "as far as the chain is concerned (nothing of the chain ran = skipped). "
                   "Whether anybody keeps the object returned by create_dispatcher is not a notion of the model (create is "
                   "idempotent there); the histories in which nobody does are compared with the same model. ")
     modelled = ["gradysim/protocol/plugin/dispatcher.py"]
@@ -465,9 +822,13 @@ class C15(Check):
     def generate(self, seed, tier):
         n = self.quick_n if tier == "quick" else self.thorough_n
         for i in range(n):
-            c = gen_disp(stable_hash(self.prop, seed, i), max_ops=60)
-            c["label"] = f"gen/{seed}/{i}"
-            if i % 25 == 7:
+            # half of the histories: callees only (un)register (the first model); 35%: callees also call the
+            # protocol's methods themselves (nested dispatch) and ask for the dispatcher from inside a callback;
+            # 15%: the same on the nodes of a real simulation that delivers the callbacks
+            flavour = FLAVOURS[i % len(FLAVOURS)]
+            c = gen_disp(stable_hash(self.prop, seed, i), max_ops=30 if flavour == "sim" else 60, flavour=flavour)
+            c["label"] = f"gen/{seed}/{i}" + ("" if flavour == "classic" else "/" + flavour)
+            if i % 25 == 7 and flavour != "sim":
                 # 150 other instances get dispatchers in the middle of the history, then the first
                 # instance asks for its dispatcher again and is dispatched once more
                 insts = sorted({op[1] for op in c["ops"]})
@@ -494,10 +855,19 @@ class C15(Check):
         return disp_run_impl(case)
 
     def model_input(self, case, impl):
+        if case_is_extended(case):
+            if not NESTED_MODEL or any(op[1] is None for op in eff_ops(case, impl)):
+                return None      # a step of the simulation raised: no history to give to the model
+            return {"kind": "dispatcher-nested", "beh": case.get("beh", []), "ops": eff_ops(case, impl),
+                    "fuel": MAX_NESTING + 2}
         return {"kind": "dispatcher", "beh": case.get("beh", []), "ops": case["ops"]}
 
     def compare(self, case, impl, model):
-        a = [strip_calls(op, r) for op, r in zip(case["ops"], impl["results"])]
+        ops = eff_ops(case, impl)
+        if case_is_extended(case):
+            a = [flat_events(r) if op[0] == "dispatch" else r for op, r in zip(ops, impl["results"])]
+        else:
+            a = [strip_calls(op, r) for op, r in zip(ops, impl["results"])]
         b = model["results"]
         return [] if a == b else [first_diff(a, b)]
 
@@ -508,37 +878,58 @@ class C15(Check):
         return disp_interesting(case, impl)
 
     def key(self, case, impl):
-        return json.dumps([case["ops"], case.get("beh", []), case.get("drop_at")], sort_keys=True)
+        return json.dumps([case["ops"], case.get("beh", []), case.get("drop_at"), case.get("sim")], sort_keys=True)
 
     def sample(self, case, impl):
-        return {"label": case.get("label"), "beh": case.get("beh", [])[:4], "ops": case["ops"][:20],
-                "results": [strip_calls(op, r) for op, r in zip(case["ops"][:20], impl["results"][:20])]}
+        return {"label": case.get("label"), "beh": case.get("beh", [])[:4], "ops": eff_ops(case, impl)[:20],
+                "results": [strip_calls(op, r) for op, r in zip(eff_ops(case, impl)[:20], impl["results"][:20])]}
 
     def stats(self, case, impl, acc):
         def inc(k, v=1):
             acc[k] = acc.get(k, 0) + v
         inc("histories")
-        inc("ops", len(case["ops"]))
+        ops = eff_ops(case, impl)
+        inc("ops", len(ops))
         inc("instances_total", len({op[1] for op in case["ops"]}))
+        if case.get("sim"):
+            inc("histories_on_a_real_simulation")
+            inc("ops_done_by_the_controller", len(case["ops"]))
+        elif case_is_extended(case):
+            inc("histories_with_nested_dispatch_or_lazy_create")
+        notes = {}
+        disp_oracle(case, impl, notes)
+        for k, v in notes.items():
+            inc(k, v)
         drop = case.get("drop_at")
         if drop is not None and drop < len(case["ops"]):
             inc("histories_dispatcher_not_kept" if drop == 0 else "histories_dispatcher_dropped_midway")
-        for i, (op, res) in enumerate(zip(case["ops"], impl["results"])):
+        delivered = {}      # sim: callbacks delivered to an instance before its dispatcher was first asked for
+        for i, (op, res) in enumerate(zip(ops, impl["results"])):
             inc("op_" + op[0])
             if op[0] in ("register", "unregister"):
                 inc(f"{op[0]}_{res}")
-                if drop is not None and i >= drop and res == "ok":
+                if drop is not None and not case.get("sim") and i >= drop and res == "ok":
                     inc(f"{op[0]}_ok_through_a_dispatcher_asked_again")
             elif op[0] == "create":
                 inc("create_again" if res[1] else "create_first")
+                if case.get("sim") and not res[1] and delivered.get(op[1]):
+                    inc("sim_first_create_after_callbacks_were_delivered")
             elif op[0] == "dispatch":
-                inc("dispatch_" + op[2])
+                inc("dispatch_" + str(op[2]))
                 inc("invocations", len(res))
                 acc["max_invocations_in_one_dispatch"] = max(acc.get("max_invocations_in_one_dispatch", 0), len(res))
-                for c in res:
+                for c in all_calls(res):
                     inc("ret_" + str(c[1]))
                     for rop, r in c[3]:
-                        inc(f"reentrant_{rop[0]}_{r}")
+                        if rop[0] == "dispatch":
+                            inc("reentrant_dispatch_" + rop[1])
+                        elif rop[0] == "create":
+                            inc("reentrant_create_" + ("again" if r[1] else "first"))
+                            if case.get("sim") and not r[1] and delivered.get(op[1]):
+                                inc("sim_first_create_after_callbacks_were_delivered")
+                        else:
+                            inc(f"reentrant_{rop[0]}_{r}")
+                delivered[op[1]] = True
                 if res and res[-1][1] == "interrupt" and res[-1][0] != "own":
                     inc("dispatch_cut_by_interrupt" if op[2] in INTERRUPTIBLE else "lifecycle_interrupt_ignored")
 
@@ -558,6 +949,11 @@ class C15(Check):
             if best.get("drop_at"):
                 cand = copy.deepcopy(best)
                 cand["drop_at"] = 0
+                if still_fails(cand):
+                    best, changed = cand, True
+            if best.get("sim"):
+                cand = copy.deepcopy(best)      # the same history by direct calls, without a simulation
+                del cand["sim"]
                 if still_fails(cand):
                     best, changed = cand, True
             for i in range(len(best.get("beh", [])) - 1, -1, -1):
@@ -979,7 +1375,7 @@ class _Ref:
         elif op[0] == "travel":
             self.travel()
         elif op[0] == "tel" and self.ongoing and self.target is not None:
-            if sqdist(bitsv3(op[1]), self.target) <= self.cfg["tol"] ** 2:
+            if sqdist(bitsv3(op[1]), self.target) <= self.cfg["tol"] * self.cfg["tol"]:
                 self.target = self.travel()
 
 
@@ -993,6 +1389,8 @@ def aim(r, ref, lattice, how):
     def off(d):
         p = list(t)
         p[axis] = p[axis] + sign * d
+        if not abs(p[axis]) <= 1e9:          # a tolerance near the top of the float range: the node stays on earth
+            p[axis] = t[axis] + sign * (4000.0 + (d if d <= 1e9 else 0.0) % 1000.0)
         return tuple(p)
     if how == "at":
         return t
@@ -1009,6 +1407,7 @@ def aim(r, ref, lattice, how):
     return (r.uniform(-2000, 2000), r.uniform(-2000, 2000), r.uniform(3000, 4000))   # far
 
 
+HUGE_TOLERANCES = [1e160, sys.float_info.max, 1.5e154, 2.0 ** 600, 1e300, math.inf]
 DEFAULT_CFG = {"x": (-50.0, 50.0), "y": (-50.0, 50.0), "z": (0.0, 50.0), "tol": 1.0}   # RandomMobilityConfig()
 
 
@@ -1062,6 +1461,11 @@ def gen_trip(seed, max_ops=40):
     cfg["tol"] = r.choice([0.0, 0.5, 1.0, 2.0, 2.0, 4.0, 10.0]) if lattice or r.random() < 0.5 else r.uniform(0.01, 20)
     if how == "default":
         cfg = dict(DEFAULT_CFG)
+    r3 = random.Random(stable_hash("trip-extreme", seed))
+    if how != "default" and r3.random() < 0.06:
+        # "every telemetry counts as an arrival": a huge finite tolerance (its square is beyond the float range),
+        # or an infinite one
+        cfg["tol"] = r3.choice(HUGE_TOLERANCES)
     n = r.randint(3, max_ops)
     draws = [r.choice(DYADIC_DRAWS) if (lattice or r.random() < 0.2) else r.random() for _ in range(3 * n + 6)]
     ref = _Ref(cfg, draws)
@@ -1242,6 +1646,8 @@ class C17(Check):
             inc("box_with_reversed_axis")
         if bitsf(cfg["tol"]) == 0.0:
             inc("tolerance_zero")
+        if bitsf(cfg["tol"]) > 1e154:
+            inc("tolerance_whose_square_exceeds_the_float_range")
         ongoing, seen_init = False, False
         for op, res in zip(case["ops"], impl["results"]):
             inc("op_" + op[0])
